@@ -87,6 +87,9 @@ class Tracer:
         return rel
 
     def _emit(self, ev) -> None:
+        if self._torn_target is not None:
+            # the armed effect was not a data write (e.g. Path.touch): nothing to tear
+            os._exit(88)
         self.events.append(ev)
         self.n_effects += 1
         if self.crash_at is not None and self.n_effects == self.crash_at:
